@@ -1636,3 +1636,141 @@ class UpdateCorrespondingContextStates(FnCheck):
             ex.oblige(st, 'never_raises', z3.BoolVal(False), info={'exc': repr(outcome[1])})
             return
         ex.oblige(st, 'index_entry_untouched', z3.Select(st.get_arr('L'), self.all_list.e) == self.ALL)
+
+
+@register
+class DescrTxWriteEntitySingleState(_DescrTxBase):
+    id = 'C02.descriptor_write_entity'
+    target = f'{TR}:DescriptorTransaction.write_entity'
+    field_types = {'DescriptorVersion': 'int', 'StateVersion': 'int', 'is_multi_state': 'bool'}
+    doc = ('DescriptorTransaction.write_entity(entity) for a single-state entity, with version adjustment: refused without '
+           'change when the handle is already in the transaction; otherwise a private COPY of the entity\'s descriptor is '
+           'queued - DescriptorVersion = stored + 1 for an existing descriptor (old = the stored one), the remembered '
+           'version (set_version) for a new one - and a private COPY of the entity\'s state is queued under the '
+           'descriptor handle, referring to that descriptor copy, with StateVersion = stored + 1 for an existing state '
+           '(old = the stored state) or the remembered version for a new one; neither the entity nor the stored objects '
+           'are written')
+    trusted = ('copy.deepcopy returns an equal, disjoint object',)
+
+    def setup(self, b):
+        st = b.st
+        ids = b.ex.ctx.builtin_class_ids
+        o = self.mk(b)
+        self.exists = b.bool('descriptor_exists_in_mdib')
+        self.ev, self.esv = b.int('entity_descriptor_version'), b.int('entity_state_version')
+        self.edescr = b.obj('entity.descriptor', Handle=self.handle, DescriptorVersion=self.ev)
+        self.estate = b.obj('entity.state', DescriptorHandle=self.handle, StateVersion=self.esv)
+        self.entity = b.obj('entity', descriptor=self.edescr, state=self.estate, is_multi_state=b.bool('is_multi_state'))
+        st.assume(z3.Not(Val.b(z3.Select(st.get_arr('f:is_multi_state'), self.entity.e))))
+        self.sv = b.int('stored_state_version')
+        self.sstate = b.obj('stored_state', StateVersion=self.sv, DescriptorHandle=self.handle)
+        self.state_exists = b.bool('state_exists_in_mdib')
+        self.supd = b.obj('state_updates')
+        st.assume(z3.Select(st.get_arr('C'), self.supd.e) == ids['dict'])
+        st.assume(z3.Select(st.get_arr('DN'), self.supd.e) >= 0)
+        b.distinct(o, self.edescr, self.estate, self.entity, self.sstate, self.supd, self.upd, self.stored)
+        st.ghost['c:set_version'] = ()
+        return o, [self.entity], {}
+
+    def callees(self, ex):
+        def get_one(ex_, st, args, kwargs):
+            recv = st.ghost.get('c:recv_path', '')
+            st.ghost['c:lookups'] = st.ghost.get('c:lookups', ()) + ((recv, st.box(args[0])),)
+            if 'states' in recv:
+                return vany(z3.If(self.state_exists.e, Val.ref(self.sstate.e), Val.none), maybe_none=True)
+            return vany(z3.If(self.exists.e, Val.ref(self.stored.e), Val.none), maybe_none=True)
+
+        def set_version(ex_, st, args, kwargs):
+            st.ghost['c:set_version'] = st.ghost['c:set_version'] + ((st.ghost.get('c:recv_path', ''), st.box(args[0])),)
+            return NONE
+
+        def deepcopy(ex_, st, args, kwargs):
+            src = ex_.concrete_kind(st, args[0], ('ref',))
+            c = st.alloc('DeepCopy')
+            for f in ('StateVersion', 'DescriptorVersion', 'DescriptorHandle', 'Handle', 'is_context_state'):
+                st.set_arr('f:' + f, z3.Store(st.get_arr('f:' + f), c.e, z3.Select(st.get_arr('f:' + f), src.e)))
+            st.ghost['copies'] = st.ghost.get('copies', ()) + ((c.e, src.e),)
+            return c
+        return {'*.get_one': Pure(get_one, name='index get_one(handle, allow_none=True) (C11)'),
+                '*.set_version': Pure(set_version, name='table.set_version(obj) (C02.set_version)'),
+                'copy.deepcopy': Pure(deepcopy, name='copy.deepcopy', trusted=True),
+                f'{TR}:DescriptorTransaction._get_states_update': Pure(lambda e, s, a, k: self.supd, name='_get_states_update'),
+                f'{TR}:TransactionItem': self.item_summary(), 'TransactionItem': self.item_summary()}
+
+    def hooks(self, ex):
+        class H:
+            tracked_names = ()
+
+            @staticmethod
+            def on_call(ex_, st, fv, keys, args, kwargs, node):
+                if fv.t == 'method':
+                    st.ghost['c:recv_path'] = getattr(fv, 'path', None) or (fv.recv.path or '') + '.' + fv.name
+                return None
+        return H
+
+    def post(self, ex, st0, st, outcome, b):
+        key = Val.str(self.handle.e)
+        was = z3.Select(z3.Select(st0.get_arr('DK'), self.upd.e), key)
+        if outcome[0] == 'exc':
+            ex.oblige(st, 'refused_only_for_a_handle_already_in_the_transaction', z3.And(z3.BoolVal(outcome[1].cls == 'ValueError'), was),
+                      info={'exc': repr(outcome[1])})
+            ex.oblige(st, 'refusal_changes_nothing', self.unchanged_queue(st0, st))
+            return
+        copies = dict((src, c) for c, src in st.ghost.get('copies', ()))
+        has, old, new = self.queued(st)
+        cps = st.ghost.get('copies', ())
+        ex.oblige(st, 'descriptor_and_state_are_copied_once_each', z3.And(
+            cps[0][1] == self.edescr.e, cps[1][1] == self.estate.e) if len(cps) == 2 else z3.BoolVal(False))
+        if len(cps) != 2:
+            return
+        dc, sc = z3.IntVal(cps[0][0]) if isinstance(cps[0][0], int) else cps[0][0], z3.IntVal(cps[1][0]) if isinstance(cps[1][0], int) else cps[1][0]
+        sets = st.ghost['c:set_version']
+        ex.oblige(st, 'queued_descriptor_is_the_private_copy_with_the_stored_one_as_old', z3.And(
+            has, new == Val.ref(dc), old == z3.If(self.exists.e, Val.ref(self.stored.e), Val.none)))
+        ex.oblige(st, 'existing_descriptor_gets_stored_version_plus_one', z3.Implies(
+            self.exists.e, Val.i(z3.Select(st.get_arr('f:DescriptorVersion'), dc)) == self.dv.e + 1))
+        ex.oblige(st, 'new_descriptor_gets_the_remembered_version', z3.Implies(z3.Not(self.exists.e), z3.Or(*[
+            z3.And(z3.BoolVal('descriptions' in p), a == Val.ref(dc)) for p, a in sets]) if sets else z3.BoolVal(False)))
+        skey = key
+        dks, dvs = z3.Select(st.get_arr('DK'), self.supd.e), z3.Select(st.get_arr('DV'), self.supd.e)
+        item = Val.oid(z3.Select(dvs, skey))
+        ex.oblige(st, 'queued_state_is_the_private_copy_with_the_stored_state_as_old', z3.And(
+            z3.Select(dks, skey), z3.Select(st.get_arr('f:new'), item) == Val.ref(sc),
+            z3.Select(st.get_arr('f:old'), item) == z3.If(self.state_exists.e, Val.ref(self.sstate.e), Val.none)))
+        ex.oblige(st, 'queued_state_refers_to_the_queued_descriptor_copy',
+                  z3.Select(st.get_arr('f:descriptor_container'), sc) == Val.ref(dc))
+        ex.oblige(st, 'existing_state_gets_stored_version_plus_one', z3.Implies(
+            self.state_exists.e, Val.i(z3.Select(st.get_arr('f:StateVersion'), sc)) == self.sv.e + 1))
+        ex.oblige(st, 'new_state_gets_the_remembered_version', z3.Implies(z3.Not(self.state_exists.e), z3.Or(*[
+            z3.And(z3.BoolVal('states' in p), a == Val.ref(sc)) for p, a in sets]) if sets else z3.BoolVal(False)))
+        ex.oblige(st, 'entity_and_stored_objects_not_written', z3.And(
+            Val.i(z3.Select(st.get_arr('f:DescriptorVersion'), self.edescr.e)) == self.ev.e,
+            Val.i(z3.Select(st.get_arr('f:StateVersion'), self.estate.e)) == self.esv.e,
+            Val.i(z3.Select(st.get_arr('f:DescriptorVersion'), self.stored.e)) == self.dv.e,
+            Val.i(z3.Select(st.get_arr('f:StateVersion'), self.sstate.e)) == self.sv.e))
+
+
+@register
+class DescrTxRemoveEntity(_DescrTxBase):
+    id = 'C02.descriptor_remove_entity'
+    tag = 'S'
+    target = f'{TR}:DescriptorTransaction.remove_entity'
+    doc = 'DescriptorTransaction.remove_entity(entity) is remove_descriptor(entity.handle) (C02.remove_descriptor), nothing else'
+
+    def setup(self, b):
+        o = self.mk(b)
+        self.entity = b.obj('entity', handle=self.handle)
+        b.st.ghost['calls'] = ()
+        return o, [self.entity], {}
+
+    def callees(self, ex):
+        def rm(ex_, st, args, kwargs):
+            st.ghost['calls'] = st.ghost['calls'] + (st.box(args[0]),)
+            return [(st.fork(), Raise(ex_.mk_exc('ValueError', 'remove_descriptor'))), (st, NONE)]
+        return {f'{TR}:DescriptorTransaction.remove_descriptor': Pure(rm, name='remove_descriptor (C02.remove_descriptor)')}
+
+    def post(self, ex, st0, st, outcome, b):
+        calls = st.ghost['calls']
+        ex.oblige(st, 'exactly_one_remove_descriptor_with_the_entity_handle',
+                  calls[0] == Val.str(self.handle.e) if len(calls) == 1 else z3.BoolVal(False))
+        ex.oblige(st, 'pending_updates_only_through_remove_descriptor', self.unchanged_queue(st0, st))
